@@ -35,7 +35,7 @@ print(sum(1 for o in obls if o in out))' "$obls" /tmp/selftest_out.$$)
   rm -f /tmp/selftest_out.$$
   nv=$(echo "$out" | grep -c "^VIOLATION property=$prop")
   if [ "$nv" -gt 0 ]; then echo "fix-revert $prop ${hash:0:8}: detected ($nv violations, $hit of the recorded obligations named)";
-  elif echo "$out" | grep -q "^UNDECIDED: contract not interpretable"; then echo "fix-revert $prop ${hash:0:8}: undecidable (the revert removes a function the contract names)";
+  elif echo "$out" | grep -q "^UNDECIDED: contract not interpretable\|^UNDECIDED property="; then echo "fix-revert $prop ${hash:0:8}: undecidable (the revert removes a function the contract names)";
   else echo "fix-revert $prop ${hash:0:8}: NOT DETECTED"; rc=1; fi
 done < /tmp/selftest_fixes.$$
 rm -f /tmp/selftest_fixes.$$
